@@ -74,12 +74,30 @@ def vh_rules(ctx):
     require_guard(ctx, b, 'C07.H1', R, lambda fc: fc[0] == 'pred' and fc[1].endswith('::is_empty') and fc[3] is True and
                   access_path(fc[2][0]) == UP, 'reject an empty update-proof list')
 
+    def adjacent(cur, prev):
+        """cur / prev are elements i and i-1 for EVERY i in 1..len (index loop), or the two elements of a sliding
+        `windows(2)` — not disjoint chunks, not a stepped range (seeded change C07-r2-a used chunks_exact(2))"""
+        tc, tp = show(cur), show(prev)
+        if any(w in tc + tp for w in ('chunks', 'step_by', 'skip', 'rchunks')):
+            return False
+        ic = [c for c in calls_in(cur, 'index')]
+        ip = [c for c in calls_in(prev, 'index')]
+        if ic and ip:
+            i, j = arg(ic[0], 1), arg(ip[0], 1)
+            rng = i[1] if i[0] == 'elem' else None
+            full = bool(rng) and rng[0] == 'agg' and rng[1] == 'Range' and is_const(dict(rng[3])['start'], 1) and \
+                has_call(dict(rng[3])['end'], 'len') and has_leaf(dict(rng[3])['end'], UP)
+            return full and j[0] == 'bin' and j[1] == 'Sub' and j[2] == i and is_const(j[3], 1)
+        if 'windows' in tc and 'windows' in tp:
+            return split_fields(cur)[1].endswith('[1].version') and split_fields(prev)[1].endswith('[0].version')
+        return False
+
     def consecutive(fc):
         if fc[0] != 'rel' or fc[1] != 'ne':
             return False
         for x, y in ((fc[2], fc[3]), (fc[3], fc[2])):
             if x[0] == 'bin' and x[1] == 'Add' and is_const(x[3], 1) and dep_up(x[2]) and show(x[2]).endswith('.version') \
-                    and dep_up(y) and show(y).endswith('.version') and y[0] != 'bin':
+                    and dep_up(y) and show(y).endswith('.version') and y[0] != 'bin' and adjacent(x[2], y):
                 return True
         return False
     require_guard(ctx, b, 'C07.H2', R, consecutive, 'reject unless versions are consecutive and decreasing (curr + 1 == prev)',
